@@ -366,6 +366,45 @@ def prebuilt_interface(ctx, rng):
             ctx.count("prebuilt_interface_cases")
 
 
+def kept_interface(ctx):
+    """an interface kept across a session: built, (used,) the model initialised once more with nothing edited, the initial
+    values changed through the model, then used again - the outcome is the one of a fresh model with the current values."""
+    from bioscrape.types import Model
+    from bioscrape.simulator import ModelCSimInterface, SafeModelCSimInterface, py_simulate_model
+    from bioscrape.random import py_seed_random
+    spec = dict(species=["X", "Y"], parameters={"k": 2.0, "d": 0.5},
+                reactions=[(["X"], ["Y"], "massaction", {"k": "d"}), (["Y"], ["X"], "massaction", {"k": "k"})],
+                initial_condition_dict={"X": 0, "Y": 0})
+    now = {"X": 40.0, "Y": 10.0}
+    T = np.linspace(0, 3.0, 13)
+    for safe in (False, True):
+        for used_before in (False, True):
+            for reinitialised in (False, True):
+                for kw in (dict(stochastic=True), dict(stochastic=False), dict(stochastic=True, volume=2.0)):
+                    case = {"scenario": "interface kept while the model's initial values change", "safe": safe, "used_before": used_before,
+                            "initialised_again": reinitialised, "options": kw}
+                    ctx.begin_case(case)
+                    M = Model(**spec)
+                    I = (SafeModelCSimInterface if safe else ModelCSimInterface)(M)
+                    if used_before:
+                        py_seed_random(3)
+                        py_simulate_model(T.copy(), Interface=I, return_dataframe=False, **kw)
+                    if reinitialised:
+                        M.py_initialize()
+                    M.set_species(dict(now))
+                    py_seed_random(77)
+                    a = np.array(py_simulate_model(T.copy(), Interface=I, return_dataframe=False, **kw).py_get_result())
+                    py_seed_random(77)
+                    b = np.array(py_simulate_model(T.copy(), Model=Model(**dict(spec, initial_condition_dict=dict(now))), safe=safe, return_dataframe=False, **kw).py_get_result())
+                    ctx.evaluated()
+                    same = np.array_equal(a, b) if kw["stochastic"] else np.allclose(a, b, rtol=1e-6, atol=1e-9)
+                    if not same:
+                        ctx.violation("history-dependence/kept-interface", "interface built before the model's initial values were set to %s (%s): its run starts at %s and ends at %s, "
+                                      "a fresh model's at %s and %s" % (now, ", ".join(k_ for k_, v_ in case.items() if v_ is True), a[0].tolist(), a[-1].tolist(), b[0].tolist(), b[-1].tolist()), case)
+                        return
+                    ctx.count("kept_interface_cases")
+
+
 def sampler_history(ctx, rng):
     """the outcome of a seeded delay simulation does not depend on which distributions were sampled earlier in the process:
     a gamma-delay model simulated right after another gamma-delay model with the same shape and another scale, and again
@@ -419,6 +458,7 @@ def run(ctx):
     from props import C19
     C19.incremental_lineage_models(ctx, rng, 8 if ctx.quick() else 120)
     C19.parameter_free_rules(ctx)
+    kept_interface(ctx)
 
 
 def replay(ctx, obj):
